@@ -75,6 +75,10 @@ def run_value(rid, cls, ver, val):
     except Exception as e:
         rec["err"] = err(e)
         return rec, None
+    if len(data) > 200000:
+        # the generated values are small (a few kB at most): an encoding of this size does not encode the value
+        rec["err"] = "EncodingBlowUp: the encoding of a small value has %d bytes" % len(data)
+        return rec, None
     rec["enc_ok"] = True
     rec["bytes"] = list(data)
     try:
@@ -211,10 +215,24 @@ def run_accept(rid, cls, ver, obj_like, data):
 
 # ---------------------------------------------------------------------------
 
+TASK_BUDGET_S = 45
+
+
+class Budget(BaseException):
+    """raised by the alarm inside one class x version task (BaseException: the codec's own handlers must not swallow it)"""
+
+
+def _alarm(signum, frame):
+    raise Budget()
+
+
 def _work(args):
-    cls, ver, seed, nrandom, boundary, nmut = args
+    cls, ver, seed, nrandom, boundary, nmut, deadline = args
     rng = random.Random("%s/%d/%d" % (cls, ver, seed))
     recs, notes = [], []
+    import time
+    if time.time() > deadline:
+        return recs, [(cls, ver, "budget", "skipped: the value leg ran past its overall time limit")]
     seen = set()
     if cls.startswith("prim:"):
         kind = cls[5:]
@@ -226,7 +244,28 @@ def _work(args):
             return recs, []
         except Exception as e:
             return recs, [(cls, ver, "generator", err(e))]
+    import time
+    import signal
+    t0 = time.time()
+    signal.signal(signal.SIGALRM, _alarm)
+    signal.alarm(TASK_BUDGET_S + 20)
+    try:
+        _work_cases(cls, ver, todo, rng, nmut, recs, notes, seen, t0)
+    except Budget:
+        notes.append((cls, ver, "budget", "one execution did not finish within the time limit; %d cases done" % len(recs)))
+    finally:
+        signal.alarm(0)
+    return recs, notes
+
+
+def _work_cases(cls, ver, todo, rng, nmut, recs, notes, seen, t0):
+    import time
     for label, val in todo:
+        if time.time() - t0 > TASK_BUDGET_S:
+            # a codec whose cost grows from call to call (state kept between calls) must not stall the check: what was
+            # recorded so far is judged, the rest of this class x version is skipped and reported
+            notes.append((cls, ver, "budget", "more than %d s for one class x version; %d cases done" % (TASK_BUDGET_S, len(recs))))
+            break
         key = json.dumps(val, sort_keys=True)
         if key in seen:
             continue
@@ -347,14 +386,18 @@ def check(run, tier):
     if ONLY:
         classes = [c for c in classes if c in ONLY]
     tasks = []
+    import time
+    # the value leg normally takes about one (quick) / four (thorough) minutes; past this limit the remaining class x version
+    # tasks are skipped (and listed in the evidence) and what was recorded is judged
+    deadline = time.time() + (300 if quick else 2400)
     for kind in sorted(B.PRIM_KINDS):
         if not ONLY or ("prim:" + kind) in ONLY:
-            tasks.append(("prim:" + kind, 14, common.SEED, 0, True, 0))
+            tasks.append(("prim:" + kind, 14, common.SEED, 0, True, 0, deadline))
     for c in classes:
         vs = G.versions_of(c)
         for i, v in enumerate(vs):
             full = (not quick) or v in (vs[0], vs[-1]) or (len(vs) > 2 and v == vs[len(vs) // 2])
-            tasks.append((c, v, common.SEED, (6 if quick else 40) if full else 3, full, (2 if quick else 8)))
+            tasks.append((c, v, common.SEED, (6 if quick else 40) if full else 3, full, (2 if quick else 8), deadline))
     rows = tlc_rows(run, classes, quick)
     with multiprocessing.Pool(common.NCPU) as pool:
         outs = pool.map(_work, tasks, chunksize=1)
